@@ -24,7 +24,7 @@ RULE = ('A valid model (chains with worm / helical matings, optional data, duty-
         'using the exact rational factor (magnitudes agree to 0.5 ulp). Oracle (metamorphic): same outcome class at '
         'construction, declaration and simulation (success, or the same exception type); same number of instants '
         '(stop instant); time axis and every recorded series (positions .. stresses, currents, duty cycle) equal in SI '
-        'within 1e-7 relative of the series scale; in half of the cases also a snapshot at the same instant strictly inside the recorded range (target written in seconds on one side, in another time unit on the other; cells equal within 1e-6 of the series scale, same success / failure). Cases whose discrete decisions (timer windows vs grid, stop '
+        'within 1e-7 relative of the series scale; in half of the cases also a snapshot at the same instant strictly inside the recorded range (target written in seconds on one side, in another time unit on the other; cells equal within 1e-6 of the series scale, same success / failure). Before a series difference is reported the case as generated is simulated once more with the no-load speed scaled by 1 + 1e-13: if that same-unit perturbation already moves a series beyond the tolerance the trajectory is ill-conditioned (amplification above 1e6) and the case is counted, not judged. Cases whose discrete decisions (timer windows vs grid, stop '
         'comparison, lock decisions, rule window) lie within 1e-6 of their threshold are counted and only compared '
         'for outcome class. ties: timer windows ending EXACTLY on a simulated instant (decimal step, window of 2^j steps), '
         'compared without the near-threshold discard. constructors: every component constructor argument (incl. the four worm pressure angles '
@@ -191,6 +191,28 @@ def _natural_scale(mdl, key, case):
     return 0.26 * (4 * force / (b_ * 0.32) * (2 / d) * E / 2) ** 0.5
 
 
+def _ill_conditioned(base, a, mdl):
+    """conditioning test made before a series difference is reported: the case AS GENERATED (same units) is simulated
+    once more with the no-load speed of the motor scaled by 1 + 1e-13; if that moves any recorded series by more than
+    the comparison tolerance (an amplification above 1e6: a bang-bang position loop with an hour-long step, say), a
+    difference between the two unit systems cannot be told from amplified rounding and the case is not judged"""
+    import copy
+    p = copy.deepcopy(base)
+    p['motor']['w0'] = [p['motor']['w0'][0] * (1.0 + 1e-13), p['motor']['w0'][1]]
+    op, bp, tp = _outcome(p)
+    if op[0] != 'ok' or not tp or tp[-1].n != a.n:
+        return True
+    sa, sp = C12._series(a), C12._series(tp[-1])
+    for key in sa:
+        x, z = sa[key], sp.get(key)
+        if x is None or z is None or len(x) != len(z) or len(x) == 0:
+            continue
+        scale = max(float(np.max(np.abs(x))), float(np.max(np.abs(z))), 1e-300, 1e-6 * _natural_scale(mdl, key, base))
+        if np.any(~(np.abs(x - z) <= 1e-7 * scale)):
+            return True
+    return False
+
+
 def check(case) -> Result:
     res = Result()
     base = {k: v for k, v in case.items() if k != 'reunits'}
@@ -243,6 +265,9 @@ def check(case) -> Result:
         # it against the natural magnitude of its variable in this model
         scale = max(scale, 1e-6 * _natural_scale(mdl, key, base))
         bad = np.nonzero(~(np.abs(x - y) <= 1e-7 * scale))[0]
+        if len(bad) and _ill_conditioned(base, a, mdl):
+            res.classes += ('ill-conditioned-discarded',)
+            return res
         if len(bad):
             k = int(bad[0])
             var = key.split(':', 1)[-1]
